@@ -5,7 +5,7 @@
    only: slot s of row i of the buffer holds cell (i, s + shift(i-1)) of the specification matrix. *)
 From Coq Require Import ZArith Bool Lia List.
 From DV Require Import Prelude Cost Grid Dtw DtwSpec DtwProps Engines CWps CFill CExpand CFillSim CLang CDistTie CDistSpec
-  Traceback TracebackC CTrace CTraceSim CTraceSpec Prune PyDistPrune CWpsCanon CWpsCanonEu CWpsKernel CWpsValue CWpsSpec CWpsSpecEu CExpW CWpsPrune CWpsSpecB CWpsSpecBEu CWpsValueB CParts.
+  Traceback TracebackC CTrace CTraceSim CTraceSpec Prune PyDistPrune CWpsCanon CWpsCanonEu CWpsKernel CWpsValue CWpsMarks CWpsSpec CWpsSpecEu CExpW CWpsPrune CWpsSpecB CWpsSpecBEu CWpsValueB CParts.
 From DVGen Require Import Gen_cwps Gen_cfill Gen_cwpsk Gen_cexpw Gen_cparts Gen_cdist.
 Import ListNotations.
 Open Scope Z_scope.
@@ -138,6 +138,70 @@ Proof.
     pose proof (shift_nonneg l1 l2 window ltac:(lia) ltac:(lia) Hwin (Z.of_nat i - 1)) as Hsh.
     rewrite wps_matrix_Mfun; [reflexivity| unfold sr; lia | unfold sc; lia].
 Qed.
+(* run for its value WITH the -1 marks (psi_neg = true): the value is the DTW value, it is attained at an end cell
+   (ie, je) of the specification, and the array holds the specification matrix except that the cells of the last column
+   below row ie - or of the last row right of column je - which the relaxed end skips read -1 *)
+Theorem c_wps_kernel_marks ce ced1 ced2 wps0 keep idist :
+  let W := cw_width l1 l2 window in
+  Z.of_nat (length wps0) = (l1 + 1) * W -> (idist =? 1) = false ->
+  exists wps' (ie je : nat),
+    c_dtw_warping_paths_ndim ce (cw_shift l1 l2 window) ced1 ced2 wps0 (concat s1) l1 (concat s2) l2 true keep true (Z.of_nat d)
+      ((l1 + 1) * W) (c_parts_ldiff l1 l2) (c_parts_ldiffr l1 l2 (c_parts_ldiff l1 l2))
+      (c_parts_ldiffc l1 l2 (c_parts_ldiff l1 l2)) (c_parts_window l1 l2 window) W ((l1 + 1) * W)
+      (c_parts_ri1 l1 (c_parts_overlap_left l1 (c_parts_ldiffr l1 l2 (c_parts_ldiff l1 l2)) (c_parts_window l1 l2 window))
+                      (c_parts_overlap_right l1 (c_parts_ldiffr l1 l2 (c_parts_ldiff l1 l2)) (c_parts_window l1 l2 window)))
+      (c_parts_ri2 l1 (c_parts_overlap_left l1 (c_parts_ldiffr l1 l2 (c_parts_ldiff l1 l2)) (c_parts_window l1 l2 window)))
+      (c_parts_ri3 l1 (c_parts_overlap_left l1 (c_parts_ldiffr l1 l2 (c_parts_ldiff l1 l2)) (c_parts_window l1 l2 window))
+                      (c_parts_overlap_right l1 (c_parts_ldiffr l1 l2 (c_parts_ldiff l1 l2)) (c_parts_window l1 l2 window)))
+      (adj_max_step usq) Inf (Fin (adj_penalty usq)) idist false (Z.of_nat (psi_1b usq)) (Z.of_nat (psi_1e usq))
+      (Z.of_nat (psi_2b usq)) (Z.of_nat (psi_2e usq)) false
+    = (RPlain (sq_repr keep (dtw_value usq s1 s2)), wps', true) /\
+    (dtw_value usq s1 s2 <> Inf -> mget (wps_matrix usq s1 s2) ie je = dtw_value usq s1 s2 /\ In (ie, je) (end_cands usq s1 s2)) /\
+    forall (i : nat) (s : Z), Z.of_nat i <= l1 -> 0 <= s < W ->
+      s + cw_shift l1 l2 window (Z.of_nat i - 1) <= l2 ->
+      (s + cw_shift l1 l2 window (Z.of_nat i - 1) = 0 -> Z.of_nat i <= cw_ri2 l1 l2 window) ->
+      let col := Z.to_nat (s + cw_shift l1 l2 window (Z.of_nat i - 1)) in
+      let skipped := (je = length s2 /\ col = length s2 /\ (ie < i)%nat) \/ (ie = length s1 /\ i = length s1 /\ (je < col)%nat) in
+      (skipped -> aget wps' (Z.of_nat i * W + s) = Fin (-1)) /\
+      (~ skipped -> aget wps' (Z.of_nat i * W + s) = sq_repr keep (mget (wps_matrix usq s1 s2) i col)).
+Proof.
+  intros W HL Hid.
+  destruct (c_wps_kernel_runs l1 l2 window ltac:(lia) ltac:(lia) Hwin (cell usq s1 s2) (adj_penalty usq)
+              (psi_1b usq) (psi_2b usq) cell_outside_band (Z.of_nat d) (concat s1) (concat s2) (adj_max_step usq)
+              cell_on_band ltac:(lia) ltac:(lia) ce (cw_shift l1 l2 window) ced1 ced2 wps0 true keep true idist
+              (Z.of_nat (psi_1e usq)) (Z.of_nat (psi_2e usq)) HL Hid)
+    as (wD & E & HLen & Hrows).
+  destruct (tail_marks l1 l2 window ltac:(lia) ltac:(lia) Hwin (cell usq s1 s2) (adj_penalty usq) (psi_1b usq) (psi_2b usq)
+              cell_outside_band wD HLen Hrows keep (psi_1e usq) (psi_2e usq)) as (wps' & ie & je & ET & HLT & Hie & Hje & Hend & Hm).
+  assert (EV : end_value l1 l2 (cell usq s1 s2) (adj_penalty usq) (psi_1b usq) (psi_2b usq) (psi_1e usq) (psi_2e usq) = dtw_value usq s1 s2).
+  { rewrite dtw_value_Mfun. unfold end_value, ecands, end_cands, sr, sc, Mfun. rewrite !Nat2Z.id. reflexivity. }
+  rewrite Nat2Z.id in Hie, Hje.
+  exists wps', ie, je. fold W in ET, E, HLen, Hm. rewrite E, ET, EV. split; [reflexivity|]. split.
+  - intros Hne. rewrite EV in Hend. destruct (Hend Hne) as [HM Hin]. split.
+    + rewrite wps_matrix_Mfun; [exact HM|unfold sr; lia|unfold sc; lia].
+    + unfold ecands in Hin. rewrite !Nat2Z.id in Hin. exact Hin.
+  - intros i s Hi Hs Hcol Hb col skipped.
+    pose proof (W_pos l1 l2 window ltac:(lia) ltac:(lia) Hwin) as HW. fold W in HW.
+    pose proof (shift_nonneg l1 l2 window ltac:(lia) ltac:(lia) Hwin (Z.of_nat i - 1)) as Hsh.
+    destruct (Hm (Z.of_nat i * W + s) ltac:(nia)) as [Hmk Hnm].
+    assert (Hiff : marked l1 l2 window ie je (Z.of_nat i * W + s) <-> skipped).
+    { unfold marked, skipped, col. rewrite !Nat2Z.id. split.
+      - intros [[Hj (ri & Hri & Hrng & Eidx)]|[Hi0 (ci & Hci & Hrng & Eidx)]].
+        + fold W in Hrng, Eidx. assert (ri = i) by nia. subst ri. left. split; [exact Hj|]. split; [|lia].
+          assert (s = l2 - cw_shift l1 l2 window (Z.of_nat i - 1)) by nia. lia.
+        + fold W in Hrng, Eidx. assert (Z.of_nat i = l1) by nia. right. split; [exact Hi0|]. split; [lia|].
+          assert (s = Z.of_nat ci - cw_shift l1 l2 window (l1 - 1)) by nia. replace (Z.of_nat i - 1) with (l1 - 1) by lia. lia.
+      - intros [(Hj & Hc & Hlt)|(Hi0 & Hi1 & Hlt)].
+        + left. split; [exact Hj|]. exists i. fold W. split; [lia|]. split; [lia|]. f_equal. lia.
+        + right. split; [exact Hi0|]. exists (Z.to_nat (s + cw_shift l1 l2 window (Z.of_nat i - 1))). fold W.
+          replace (Z.of_nat i - 1) with (l1 - 1) in * by lia. split; [lia|]. split; [lia|]. rewrite Z2Nat.id by lia. nia. }
+    split.
+    + intros Hsk. apply Hmk. apply Hiff. exact Hsk.
+    + intros Hns. rewrite Hnm by (intro Hx; apply Hns; apply Hiff; exact Hx). f_equal.
+      pose proof (Hrows i ltac:(lia) s Hs Hcol Hb) as HH. unfold rowf in HH. fold W in HH. rewrite HH.
+      rewrite wps_matrix_Mfun; [reflexivity|unfold sr; lia|unfold sc; lia].
+Qed.
+
 (* the kernel, then dtw_expand_wps_slice (Gen_cexpw.v) on the array it leaves: the block of the full matrix *)
 Theorem c_fill_then_expand ce0 shiftf ced1 ced2 wps0 psi_neg idist zp1e zp2e (rb re cb ce : Z) full0 :
   let W := cw_width l1 l2 window in
